@@ -17,20 +17,15 @@
                      parenthesised, negative literals in operand position are parenthesised, print!/assert/not/if are
                      written as calls, blocks are multi-line with 4 spaces per level.
 
-    For the operator sub-fragment [ofrag] (natural / negative / float literals, variables, prefix - + ~, the seven
-    arithmetic operators, the six comparisons, and / or) the file also defines what the printed text IS in terms of the
-    C11 models of the lexer's operator handling and of the parser's operator stack (ErgV.ExprParse.Model):
-    [lex_e] (lexemes with white-space flags), [tok_e] (tokens), [ast] (the intended syntax tree).
-    GenProofs.v proves   print = spell . lex_e,   Model.lex (lex_e e) = tok_e e,   Model.parse (tok_e e) = Ok (ast e).
-    Definitions only. *)
-From Coq Require Import ZArith List Bool String Ascii SpecFloat.
+    [ofrag] is the operator sub-fragment (natural / negative / float literals, variables, prefix - + ~, the seven
+    arithmetic operators, the six comparisons, and / or) for which GenOps.v / GenProofs.v relate the printed text to
+    the C11 models of the lexer and the parser.
+    Definitions only; this file is extracted (no module aliases here: monolithic extraction cannot cope with them). *)
+From Coq Require Import ZArith List Bool SpecFloat.
 From ErgV Require Import Common.Sx CoreErg.Syntax.
-From ErgV Require CoreErg.Sem ExprParse.Model.
+From ErgV Require CoreErg.Sem.
 Import ListNotations.
 Open Scope Z_scope.
-
-Module PM := ErgV.ExprParse.Model.
-Module Sem := ErgV.CoreErg.Sem.
 
 Record cprog := mkCprog { c_body : program; c_untyped : list Z }.
 
@@ -45,7 +40,6 @@ Definition dec_cprog (x : sx) : option cprog :=
   end.
 
 (* ------------------------------------------------------------------ text helpers *)
-Definition zs (x : string) : list Z := map (fun c => Z.of_nat (nat_of_ascii c)) (list_ascii_of_string x).
 
 Fixpoint join (sep : list Z) (l : list (list Z)) : list Z :=
   match l with
@@ -72,15 +66,15 @@ Fixpoint procs_stmt (s : stmt) : list Z :=
   end.
 Definition proc_ids (p : program) : list Z := flat_map procs_stmt p.
 
-Definition vname (i : Z) : list Z := zs "v" ++ Sem.str_int i.
+Definition vname (i : Z) : list Z := [118] (*"v"*) ++ ErgV.CoreErg.Sem.str_int i.
 Definition name (procs : list Z) (i : Z) : list Z :=
-  if memz i procs then zs "p" ++ Sem.str_int i ++ zs "!" else vname i.
+  if memz i procs then [112] (*"p"*) ++ ErgV.CoreErg.Sem.str_int i ++ [33] (*"!"*) else vname i.
 
 Fixpoint ty_text (t : ty) : list Z :=
   match t with
-  | TyNone => zs "NoneType" | TyNat => zs "Nat" | TyInt => zs "Int" | TyFloat => zs "Float" | TyStr => zs "Str"
-  | TyBool => zs "Bool"
-  | TyList t => zs "List(" ++ ty_text t ++ zs ")"
+  | TyNone => [78; 111; 110; 101; 84; 121; 112; 101] (*"NoneType"*) | TyNat => [78; 97; 116] (*"Nat"*) | TyInt => [73; 110; 116] (*"Int"*) | TyFloat => [70; 108; 111; 97; 116] (*"Float"*) | TyStr => [83; 116; 114] (*"Str"*)
+  | TyBool => [66; 111; 111; 108] (*"Bool"*)
+  | TyList t => [76; 105; 115; 116; 40] (*"List("*) ++ ty_text t ++ [41] (*")"*)
   end.
 
 (* ------------------------------------------------------------------ literals *)
@@ -90,7 +84,7 @@ Definition str_text (s : list Z) : list Z := 34 :: flat_map esc s ++ [34].
 
 (** floats of the fragment: |value| = k / 1024 with k < 2^50; [float_k] = (sign, k) *)
 Definition float_k (bits : Z) : option (bool * Z) :=
-  match Sem.b2sf bits with
+  match ErgV.CoreErg.Sem.b2sf bits with
   | S754_zero s => Some (s, 0)
   | S754_finite s m e =>
     let sh := e + 10 in
@@ -111,75 +105,75 @@ Fixpoint strip0 (l : list Z) : list Z :=
 (* fp / 1024 = fp * 5^10 / 10^10 : ten digits, trailing zeros removed, at least one digit *)
 Definition frac_text (fp : Z) : list Z :=
   match strip0 (pad_digits 10 (fp * 9765625)) with [] => [48] | d => d end.
-Definition ufloat_text (k : Z) : list Z := Sem.str_int (k / 1024) ++ [46] ++ frac_text (k mod 1024).
+Definition ufloat_text (k : Z) : list Z := ErgV.CoreErg.Sem.str_int (k / 1024) ++ [46] ++ frac_text (k mod 1024).
 Definition float_text (bits : Z) : list Z :=
   match float_k bits with
   | Some (s, k) => (if s then [45] else []) ++ ufloat_text k
-  | None => zs "0.0"
+  | None => [48; 46; 48] (*"0.0"*)
   end.
 
 Definition lit_text (l : lit) : list Z :=
   match l with
-  | LNat n => Sem.str_int n
-  | LNeg z => Sem.str_int z
+  | LNat n => ErgV.CoreErg.Sem.str_int n
+  | LNeg z => ErgV.CoreErg.Sem.str_int z
   | LFloat b => float_text b
   | LStr s => str_text s
-  | LBool b => if b then zs "True" else zs "False"
-  | LNone => zs "None"
+  | LBool b => if b then [84; 114; 117; 101] (*"True"*) else [70; 97; 108; 115; 101] (*"False"*)
+  | LNone => [78; 111; 110; 101] (*"None"*)
   end.
 
 (* ------------------------------------------------------------------ expressions *)
 Definition arith_text (o : arith) : list Z :=
-  match o with OAdd => zs "+" | OSub => zs "-" | OMul => zs "*" | ODiv => zs "/" | OFloorDiv => zs "//" | OMod => zs "%"
-             | OPow => zs "**" end.
+  match o with OAdd => [43] (*"+"*) | OSub => [45] (*"-"*) | OMul => [42] (*"*"*) | ODiv => [47] (*"/"*) | OFloorDiv => [47; 47] (*"//"*) | OMod => [37] (*"%"*)
+             | OPow => [42; 42] (*"**"*) end.
 Definition cmp_text (o : cmpop) : list Z :=
-  match o with CLt => zs "<" | CLe => zs "<=" | CEq => zs "==" | CNe => zs "!=" | CGt => zs ">" | CGe => zs ">=" end.
+  match o with CLt => [60] (*"<"*) | CLe => [60; 61] (*"<="*) | CEq => [61; 61] (*"=="*) | CNe => [33; 61] (*"!="*) | CGt => [62] (*">"*) | CGe => [62; 61] (*">="*) end.
 Definition unop_text (o : unop) : list Z :=
-  match o with UNeg => zs "-" | UPos => zs "+" | UNot => zs "not" | UInv => zs "~" end.
+  match o with UNeg => [45] (*"-"*) | UPos => [43] (*"+"*) | UNot => [110; 111; 116] (*"not"*) | UInv => [126] (*"~"*) end.
 
 (** operand that needs no parentheses *)
 Definition atomic (e : expr) : bool :=
   match e with
   | ELit _ (LNeg _) => false
-  | ELit _ (LFloat b) => b <? Sem.sign_bit
+  | ELit _ (LFloat b) => b <? ErgV.CoreErg.Sem.sign_bit
   | ELit _ _ => true
   | EUn _ UNot _ => true
   | EVar _ _ | EList _ _ | ECall _ _ _ _ | ELen _ _ | EAbs _ _ | EIndex _ _ _ | EIf _ _ _ _ => true
   | _ => false
   end.
 
-Definition paren (t : list Z) : list Z := zs "(" ++ t ++ zs ")".
+Definition paren (t : list Z) : list Z := [40] (*"("*) ++ t ++ [41] (*")"*).
 
 Fixpoint p_expr (nm : Z -> list Z) (e : expr) {struct e} : list Z :=
   match e with
   | ELit _ l => lit_text l
   | EVar _ x => nm x
   | EUn _ o a => unop_text o ++ paren (p_expr nm a)
-  | EBin _ o a b => (if atomic a then p_expr nm a else paren (p_expr nm a)) ++ zs " " ++ arith_text o ++ zs " "
+  | EBin _ o a b => (if atomic a then p_expr nm a else paren (p_expr nm a)) ++ [32] (*" "*) ++ arith_text o ++ [32] (*" "*)
                     ++ (if atomic b then p_expr nm b else paren (p_expr nm b))
-  | ECmp _ o a b => (if atomic a then p_expr nm a else paren (p_expr nm a)) ++ zs " " ++ cmp_text o ++ zs " "
+  | ECmp _ o a b => (if atomic a then p_expr nm a else paren (p_expr nm a)) ++ [32] (*" "*) ++ cmp_text o ++ [32] (*" "*)
                     ++ (if atomic b then p_expr nm b else paren (p_expr nm b))
-  | ELogic _ k a b => (if atomic a then p_expr nm a else paren (p_expr nm a)) ++ (if k then zs " or " else zs " and ")
+  | ELogic _ k a b => (if atomic a then p_expr nm a else paren (p_expr nm a)) ++ (if k then [32; 111; 114; 32] (*" or "*) else [32; 97; 110; 100; 32] (*" and "*))
                       ++ (if atomic b then p_expr nm b else paren (p_expr nm b))
   | EList _ es =>
-    zs "[" ++ join (zs ", ") ((fix go (l : list expr) : list (list Z) :=
-                                 match l with [] => [] | x :: r => p_expr nm x :: go r end) es) ++ zs "]"
+    [91] (*"["*) ++ join ([44; 32] (*", "*)) ((fix go (l : list expr) : list (list Z) :=
+                                 match l with [] => [] | x :: r => p_expr nm x :: go r end) es) ++ [93] (*"]"*)
   | ETuple _ es =>
-    zs "(" ++ join (zs ", ") ((fix go (l : list expr) : list (list Z) :=
-                                 match l with [] => [] | x :: r => p_expr nm x :: go r end) es) ++ zs ")"
-  | EIndex _ a i => (if atomic a then p_expr nm a else paren (p_expr nm a)) ++ zs "[" ++ p_expr nm i ++ zs "]"
-  | EIf _ c a b => zs "if(" ++ p_expr nm c ++ zs ", (do: " ++ p_expr nm a ++ zs "), (do: " ++ p_expr nm b ++ zs "))"
+    [40] (*"("*) ++ join ([44; 32] (*", "*)) ((fix go (l : list expr) : list (list Z) :=
+                                 match l with [] => [] | x :: r => p_expr nm x :: go r end) es) ++ [41] (*")"*)
+  | EIndex _ a i => (if atomic a then p_expr nm a else paren (p_expr nm a)) ++ [91] (*"["*) ++ p_expr nm i ++ [93] (*"]"*)
+  | EIf _ c a b => [105; 102; 40] (*"if("*) ++ p_expr nm c ++ [44; 32; 40; 100; 111; 58; 32] (*", (do: "*) ++ p_expr nm a ++ [41; 44; 32; 40; 100; 111; 58; 32] (*"), (do: "*) ++ p_expr nm b ++ [41; 41] (*"))"*)
   | ECall _ f args kw =>
-    nm f ++ zs "("
-       ++ join (zs ", ")
+    nm f ++ [40] (*"("*)
+       ++ join ([44; 32] (*", "*))
                ((fix go (l : list expr) : list (list Z) :=
                    match l with [] => [] | x :: r => p_expr nm x :: go r end) args
                 ++ (fix gokw (l : list (Z * expr)) : list (list Z) :=
-                      match l with [] => [] | (p, x) :: r => (nm p ++ zs " := " ++ p_expr nm x) :: gokw r end) kw)
-       ++ zs ")"
-  | ELen _ a => zs "len(" ++ p_expr nm a ++ zs ")"
-  | EAbs _ a => zs "abs(" ++ p_expr nm a ++ zs ")"
-  | ERange _ a b => (if atomic a then p_expr nm a else paren (p_expr nm a)) ++ zs "..<"
+                      match l with [] => [] | (p, x) :: r => (nm p ++ [32; 58; 61; 32] (*" := "*) ++ p_expr nm x) :: gokw r end) kw)
+       ++ [41] (*")"*)
+  | ELen _ a => [108; 101; 110; 40] (*"len("*) ++ p_expr nm a ++ [41] (*")"*)
+  | EAbs _ a => [97; 98; 115; 40] (*"abs("*) ++ p_expr nm a ++ [41] (*")"*)
+  | ERange _ a b => (if atomic a then p_expr nm a else paren (p_expr nm a)) ++ [46; 46; 60] (*"..<"*)
                     ++ (if atomic b then p_expr nm b else paren (p_expr nm b))
   end.
 
@@ -188,10 +182,10 @@ Definition p_op (nm : Z -> list Z) (e : expr) : list Z := if atomic e then p_exp
 (* ------------------------------------------------------------------ statements *)
 Definition p_param (nm : Z -> list Z) (U : list Z) (p : Z * ty * option expr) : list Z :=
   let '(pid, t, d) := p in
-  nm pid ++ (if memz pid U then [] else zs ": " ++ ty_text t)
-     ++ (match d with Some d => zs " := " ++ p_op nm d | None => [] end).
+  nm pid ++ (if memz pid U then [] else [58; 32] (*": "*) ++ ty_text t)
+     ++ (match d with Some d => [32; 58; 61; 32] (*" := "*) ++ p_op nm d | None => [] end).
 Definition p_lparam (nm : Z -> list Z) (U : list Z) (p : Z * ty) : list Z :=
-  let '(pid, t) := p in nm pid ++ (if memz pid U then [] else zs ": " ++ ty_text t).
+  let '(pid, t) := p in nm pid ++ (if memz pid U then [] else [58; 32] (*": "*) ++ ty_text t).
 
 Fixpoint p_stmt (nm : Z -> list Z) (U : list Z) (ind : nat) (s : stmt) {struct s} : list (list Z) :=
   let fix blk (ss : list stmt) (k : nat) : list (list Z) :=
@@ -199,30 +193,30 @@ Fixpoint p_stmt (nm : Z -> list Z) (U : list Z) (ind : nat) (s : stmt) {struct s
   let p := indent ind in
   match s with
   | SExpr e => [p ++ p_expr nm e]
-  | SPrint es => [p ++ zs "print!(" ++ join (zs ", ") (map (p_expr nm) es) ++ zs ")"]
-  | SAssert e => [p ++ zs "assert(" ++ p_expr nm e ++ zs ")"]
+  | SPrint es => [p ++ [112; 114; 105; 110; 116; 33; 40] (*"print!("*) ++ join ([44; 32] (*", "*)) (map (p_expr nm) es) ++ [41] (*")"*)]
+  | SAssert e => [p ++ [97; 115; 115; 101; 114; 116; 40] (*"assert("*) ++ p_expr nm e ++ [41] (*")"*)]
   | SDef x ann e =>
-    [p ++ nm x ++ (match ann with Some t => if memz x U then [] else zs ": " ++ ty_text t | None => [] end)
-       ++ zs " = " ++ p_expr nm e]
+    [p ++ nm x ++ (match ann with Some t => if memz x U then [] else [58; 32] (*": "*) ++ ty_text t | None => [] end)
+       ++ [32; 61; 32] (*" = "*) ++ p_expr nm e]
   | SIf c th he el =>
     if he then
-      [p ++ zs "if! " ++ p_expr nm c ++ zs ":"; p ++ zs "    do!:"] ++ blk th (ind + 2)%nat
-        ++ [p ++ zs "    do!:"] ++ blk el (ind + 2)%nat
-    else [p ++ zs "if! " ++ p_expr nm c ++ zs ", do!:"] ++ blk th (ind + 1)%nat
-  | SFor x it body => [p ++ zs "for! " ++ p_expr nm it ++ zs ", " ++ nm x ++ zs " =>"] ++ blk body (ind + 1)%nat
-  | SWhile c body => [p ++ zs "while! do! " ++ p_expr nm c ++ zs ", do!:"] ++ blk body (ind + 1)%nat
-  | SMutDef x e => [p ++ nm x ++ zs " = !" ++ p_op nm e]
-  | SInc x => [p ++ nm x ++ zs ".inc!()"]
-  | SUpdate x q e => [p ++ nm x ++ zs ".update!(" ++ nm q ++ zs " -> " ++ p_expr nm e ++ zs ")"]
+      [p ++ [105; 102; 33; 32] (*"if! "*) ++ p_expr nm c ++ [58] (*":"*); p ++ [32; 32; 32; 32; 100; 111; 33; 58] (*"    do!:"*)] ++ blk th (ind + 2)%nat
+        ++ [p ++ [32; 32; 32; 32; 100; 111; 33; 58] (*"    do!:"*)] ++ blk el (ind + 2)%nat
+    else [p ++ [105; 102; 33; 32] (*"if! "*) ++ p_expr nm c ++ [44; 32; 100; 111; 33; 58] (*", do!:"*)] ++ blk th (ind + 1)%nat
+  | SFor x it body => [p ++ [102; 111; 114; 33; 32] (*"for! "*) ++ p_expr nm it ++ [44; 32] (*", "*) ++ nm x ++ [32; 61; 62] (*" =>"*)] ++ blk body (ind + 1)%nat
+  | SWhile c body => [p ++ [119; 104; 105; 108; 101; 33; 32; 100; 111; 33; 32] (*"while! do! "*) ++ p_expr nm c ++ [44; 32; 100; 111; 33; 58] (*", do!:"*)] ++ blk body (ind + 1)%nat
+  | SMutDef x e => [p ++ nm x ++ [32; 61; 32; 33] (*" = !"*) ++ p_op nm e]
+  | SInc x => [p ++ nm x ++ [46; 105; 110; 99; 33; 40; 41] (*".inc!()"*)]
+  | SUpdate x q e => [p ++ nm x ++ [46; 117; 112; 100; 97; 116; 101; 33; 40] (*".update!("*) ++ nm q ++ [32; 45; 62; 32] (*" -> "*) ++ p_expr nm e ++ [41] (*")"*)]
   | SFun f isp params ret body =>
-    [p ++ nm f ++ zs "(" ++ join (zs ", ") (map (p_param nm U) params) ++ zs ")"
-       ++ (if isp || memz f U then [] else zs ": " ++ ty_text ret) ++ zs " ="] ++ blk body (ind + 1)%nat
+    [p ++ nm f ++ [40] (*"("*) ++ join ([44; 32] (*", "*)) (map (p_param nm U) params) ++ [41] (*")"*)
+       ++ (if isp || memz f U then [] else [58; 32] (*": "*) ++ ty_text ret) ++ [32; 61] (*" ="*)] ++ blk body (ind + 1)%nat
   | SLam f params e =>
-    [p ++ nm f ++ zs " = (" ++ join (zs ", ") (map (p_lparam nm U) params) ++ zs ") -> " ++ p_expr nm e]
+    [p ++ nm f ++ [32; 61; 32; 40] (*" = ("*) ++ join ([44; 32] (*", "*)) (map (p_lparam nm U) params) ++ [41; 32; 45; 62; 32] (*") -> "*) ++ p_expr nm e]
   | SPat isl ids e =>
-    [p ++ (if isl then zs "[" else zs "(") ++ join (zs ", ") (map nm ids) ++ (if isl then zs "] = " else zs ") = ")
+    [p ++ (if isl then [91] (*"["*) else [40] (*"("*)) ++ join ([44; 32] (*", "*)) (map nm ids) ++ (if isl then [93; 32; 61; 32] (*"] = "*) else [41; 32; 61; 32] (*") = "*))
        ++ p_expr nm e]
-  | SPCall f args => [p ++ nm f ++ zs "(" ++ join (zs ", ") (map (p_expr nm) args) ++ zs ")"]
+  | SPCall f args => [p ++ nm f ++ [40] (*"("*) ++ join ([44; 32] (*", "*)) (map (p_expr nm) args) ++ [41] (*")"*)]
   end.
 
 Definition print_lines (cp : cprog) : list (list Z) :=
@@ -338,111 +332,3 @@ Fixpoint ofrag (e : expr) : bool :=
   | _ => false
   end.
 
-Definition un_sym (o : unop) : PM.opsym :=
-  match o with UNeg => PM.SMinus | UPos => PM.SPlus | _ => PM.STilde end.
-Definition un_pre (o : unop) : PM.preop :=
-  match o with UNeg => PM.PreMinus | UPos => PM.PrePlus | _ => PM.PreBitNot end.
-Definition arith_bin (o : arith) : PM.binop :=
-  match o with OAdd => PM.Plus | OSub => PM.Minus | OMul => PM.Star | ODiv => PM.Slash | OFloorDiv => PM.FloorDiv
-             | OMod => PM.Mod | OPow => PM.Pow end.
-Definition arith_sym (o : arith) : PM.opsym :=
-  match o with OAdd => PM.SPlus | OSub => PM.SMinus | OMul => PM.SStar | OPow => PM.SDblStar
-             | o => PM.SBin (arith_bin o) end.
-Definition cmp_bin (o : cmpop) : PM.binop :=
-  match o with CLt => PM.Less | CLe => PM.LessEq | CEq => PM.DblEq | CNe => PM.NotEq | CGt => PM.Gre | CGe => PM.GreEq end.
-Definition logic_bin (k : bool) : PM.binop := if k then PM.OrOp else PM.AndOp.
-
-(** the operator of a binary node: (spelling seen by the lexer, token seen by the parser) *)
-Definition bin_of (e : expr) : option (PM.opsym * PM.binop) :=
-  match e with
-  | EBin _ o _ _ => Some (arith_sym o, arith_bin o)
-  | ECmp _ o _ _ => Some (PM.SBin (cmp_bin o), cmp_bin o)
-  | ELogic _ k _ _ => Some (PM.SBin (logic_bin k), logic_bin k)
-  | _ => None
-  end.
-
-(** unsigned text and sign of a numeric literal: (negative, ratio, digits) *)
-Definition num_of (l : lit) : option (bool * bool * list Z) :=
-  match l with
-  | LNat n => Some (false, false, Sem.dec_nonneg n)
-  | LNeg z => Some (true, false, Sem.dec_nonneg (- z))
-  | LFloat b => match float_k b with Some (s, k) => Some (s, true, ufloat_text k) | None => None end
-  | _ => None
-  end.
-
-(** lexemes of the printed text; [sp] = white space in front of the first lexeme *)
-Fixpoint lex_e (sp : bool) (e : expr) {struct e} : list (bool * PM.lexeme) :=
-  match e with
-  | ELit _ l =>
-    match num_of l with
-    | Some (true, r, ds) => [(sp, PM.LOp PM.SMinus); (false, PM.LNum r ds)]
-    | Some (false, r, ds) => [(sp, PM.LNum r ds)]
-    | None => []
-    end
-  | EVar _ x => [(sp, PM.LIdent x)]
-  | EUn _ o a => (sp, PM.LOp (un_sym o)) :: (false, PM.LLP) :: lex_e false a ++ [(false, PM.LRP)]
-  | EBin _ _ a b | ECmp _ _ a b | ELogic _ _ a b =>
-    (if atomic a then lex_e sp a else (sp, PM.LLP) :: lex_e false a ++ [(false, PM.LRP)])
-      ++ (true, PM.LOp (match bin_of e with Some (s, _) => s | None => PM.STilde end))
-      :: (if atomic b then lex_e true b else (true, PM.LLP) :: lex_e false b ++ [(false, PM.LRP)])
-  | _ => []
-  end.
-
-Definition binop_text (o : PM.binop) : list Z :=
-  match o with
-  | PM.Pow => zs "**" | PM.Star => zs "*" | PM.Slash => zs "/" | PM.FloorDiv => zs "//" | PM.Mod => zs "%"
-  | PM.Plus => zs "+" | PM.Minus => zs "-" | PM.Shl => zs "<<" | PM.Shr => zs ">>" | PM.BitAnd => zs "&&"
-  | PM.BitXor => zs "^^" | PM.BitOr => zs "||" | PM.Closed => zs ".." | PM.RightOpen => zs "..<" | PM.LeftOpen => zs "<.."
-  | PM.Open => zs "<..<" | PM.Less => zs "<" | PM.Gre => zs ">" | PM.LessEq => zs "<=" | PM.GreEq => zs ">="
-  | PM.DblEq => zs "==" | PM.NotEq => zs "!=" | PM.InOp => zs "in" | PM.NotInOp => zs "notin"
-  | PM.ContainsOp => zs "contains" | PM.IsOp => zs "is!" | PM.IsNotOp => zs "isnot!" | PM.AndOp => zs "and"
-  | PM.OrOp => zs "or"
-  end.
-Definition opsym_text (o : PM.opsym) : list Z :=
-  match o with
-  | PM.SPlus => zs "+" | PM.SMinus => zs "-" | PM.STilde => zs "~" | PM.SStar => zs "*" | PM.SDblStar => zs "**"
-  | PM.SBin b => binop_text b
-  end.
-Definition lexeme_text (l : PM.lexeme) : list Z :=
-  match l with
-  | PM.LIdent n => vname n
-  | PM.LNum _ s => s
-  | PM.LOp o => opsym_text o
-  | PM.LDot => zs "." | PM.LLP => zs "(" | PM.LRP => zs ")" | PM.LComma => zs ","
-  end.
-(** the characters of a lexeme list: one space where the flag says so *)
-Definition spell (ls : list (bool * PM.lexeme)) : list Z :=
-  flat_map (fun p : bool * PM.lexeme => (if fst p then [32] else []) ++ lexeme_text (snd p)) ls.
-
-(** tokens the parser sees.  [TLP adj]: adj = no white space before the parenthesis *)
-Fixpoint tok_e (sp : bool) (e : expr) {struct e} : list PM.tok :=
-  match e with
-  | ELit _ l =>
-    match num_of l with
-    | Some (neg, r, ds) => [PM.num_tok neg r ds]
-    | None => []
-    end
-  | EVar _ x => [PM.TSym x]
-  | EUn _ o a => PM.TPre (un_pre o) :: PM.TLP true :: tok_e false a ++ [PM.TRP]
-  | EBin _ _ a b | ECmp _ _ a b | ELogic _ _ a b =>
-    (if atomic a then tok_e sp a else PM.TLP (negb sp) :: tok_e false a ++ [PM.TRP])
-      ++ PM.TBin (match bin_of e with Some (_, o) => o | None => PM.Plus end)
-      :: (if atomic b then tok_e true b else PM.TLP false :: tok_e false b ++ [PM.TRP])
-  | _ => []
-  end.
-
-(** the intended syntax tree (erg_parser::ast::Expr as observed by C11), constructor by constructor *)
-Fixpoint ast (e : expr) : PM.expr :=
-  match e with
-  | ELit _ l =>
-    match num_of l with
-    | Some (neg, r, ds) => PM.ELit (PM.num_kind neg r ds) (if neg then PM.minus_cp :: ds else ds)
-    | None => PM.EId (-1)
-    end
-  | EVar _ x => PM.EId x
-  | EUn _ o a => PM.EUn (un_pre o) (ast a)
-  | EBin _ o a b => PM.EBin (arith_bin o) (ast a) (ast b)
-  | ECmp _ o a b => PM.EBin (cmp_bin o) (ast a) (ast b)
-  | ELogic _ k a b => PM.EBin (logic_bin k) (ast a) (ast b)
-  | _ => PM.EId (-1)
-  end.
